@@ -39,21 +39,11 @@ SHRINK = gen_model.case_simplifications("spec")
 MARKUP_CHARS = re.compile(r"[&<>{}]|-->")
 
 
-def tiny_times(spec, eps):
-  """makes some intervals shorter than a millisecond (labelled class)"""
-  if spec["body"] is None or eps is None:
-    return spec
-  for n in gen_model.walk(spec["body"]):
-    if n["kind"] in ("p", "span") and n["begin"] is not None and n["end"] is None:
-      n["end"] = n["begin"] + eps
-  return spec
-
-
 def cases(prof, cfgs, sub_ms=False):
   def strat(tier):
-    eps = st.sampled_from([Fraction(1, 3000), Fraction(1, 1001), Fraction(1, 2000)]) if sub_ms else st.none()
-    return st.builds(lambda spec, mode, cfg, e: {"spec": tiny_times(c06.shape(spec, mode), e), "cfg": cfg}, gen_model.docspecs(prof),
-                     st.sampled_from([0, 1, 2]), st.sampled_from(cfgs), eps)
+    eps = st.sampled_from(c06.EPS) if sub_ms else st.none()
+    return st.builds(lambda spec, mode, cfg, e, o: {"spec": c06.tiny_times(c06.shape(spec, mode), e, o), "cfg": cfg},
+                     gen_model.docspecs(prof), st.sampled_from([0, 1, 2]), st.sampled_from(cfgs), eps, st.sampled_from(c06.OFFSETS))
   return strat
 
 
@@ -93,9 +83,13 @@ def check(case, res):
   if has_markup:
     res.label("text-with-markup-characters")
   exp, sig = cuecheck.expected_cues(doc, spec, per_region)
-  sub_ms = any(cuecheck.round_ms(a) & cuecheck.round_ms(b) for a, b in zip(sig, sig[1:]))
+  n_all = len(exp)
+  exp, dropped, ambiguous = cuecheck.resolve_sub_ms(exp)
+  sub_ms = dropped > 0 or ambiguous
   if sub_ms:
     res.label("sub-millisecond-interval")
+  if 0 < dropped < n_all:
+    res.label("sub-millisecond-interval-among-other-cues")
   try:
     out = c06.run_writer(doc, cfg)
   except Exception as e:  # pylint: disable=broad-except
@@ -127,8 +121,8 @@ def check(case, res):
   formatting = cfg != "srt-noformat"
   if not formatting and any(re.search(r"</?[a-zA-Z][^<>]*>", l) for c in cues for l in c.raw_lines):
     res.fail("srt:style:tags-with-formatting-disabled", [c.raw_lines for c in cues][:3])
-  if sub_ms:
-    return                       # text of unrepresentable intervals may be missing: styles and settings are not compared
+  if ambiguous:
+    return                       # an end point exactly on a half millisecond: whether the cue exists depends on the rounding mode
   visible = [c for c in cues if any(l.strip() for l in c.lines)]
   for c in visible:
     keep = [i for i, l in enumerate(c.lines) if l.strip() != ""]
@@ -179,5 +173,5 @@ PARTS = {
   "markup": Part("markup", check, strategy=cases(MARKUP, c06.VTT_NAMES + ["srt"]), n=(320, 16000), shrinker=SHRINK,
                  required_labels=("text-with-markup-characters",)),
   "subms": Part("subms", check, strategy=cases(SUBMS, ALL_CFGS, True), n=(320, 16000), shrinker=SHRINK,
-                required_labels=("sub-millisecond-interval",)),
+                required_labels=("sub-millisecond-interval", "sub-millisecond-interval-among-other-cues")),
 }
